@@ -83,7 +83,7 @@ func (fx *FnExec) tryInline(st *State, callee *ssa.Function, args []Term, at tok
 		inlineDepth: fx.inlineDepth + 1, inlineParent: fx, inlineAt: at, entry: fx.entry, recDefs: fx.recDefs, inlined: fx.inlined}
 	// snapshot for rollback: script position, state, counters are shared maps (ordinals only grow: harmless)
 	pos := fx.sc.Pos()
-	saved := st.Clone()
+	savedDefers := st.defers
 	nobl := len(fx.obls)
 	failed := false
 	func() {
@@ -110,22 +110,24 @@ func (fx *FnExec) tryInline(st *State, callee *ssa.Function, args []Term, at tok
 		for i, p := range callee.Params {
 			sub.vals[p] = args[i]
 		}
-		savedDefers := st.defers
-		st.defers = nil
-		sub.runBlocks(st)
-		st.defers = savedDefers
+		// the callee runs on a copy: state objects become parents of merged epochs, and the caller's own
+		// state object is overwritten with the result below
+		work := st.Clone()
+		work.defers = nil
+		sub.runBlocks(work)
 	}()
 	fx.nepoch = sub.nepoch
 	if failed || len(sub.exits) == 0 {
 		fx.sc.Truncate(pos)
-		*st = *saved
 		fx.obls = fx.obls[:nobl]
 		return nil, false
 	}
 	// merge the callee's returns into one state and one result tuple
 	ins := make([]edgeIn, len(sub.exits))
 	for i, e := range sub.exits {
-		ins[i] = edgeIn{cond: e.cond, st: e.st}
+		// cloned: a return state may be the caller's own state object, which is overwritten below - the merged
+		// epoch must not end up among its own parents
+		ins[i] = edgeIn{cond: e.cond, st: e.st.Clone()}
 	}
 	var exit *State
 	if len(ins) == 1 {
@@ -142,7 +144,7 @@ func (fx *FnExec) tryInline(st *State, callee *ssa.Function, args []Term, at tok
 		}
 		results[r] = fx.sc.Define("inl$"+sanitize(callee.Name()), acc)
 	}
-	exit.defers = saved.defers
+	exit.defers = savedDefers
 	*st = *exit
 	fx.obls = append(fx.obls, sub.obls...)
 	fx.inlined[funcKey(callee)]++
